@@ -1,11 +1,11 @@
 //! C11 — piecewise integration: structure decided online with trace probes (and the two iterator
 //! variants compared), values decided offline by oracles/c11.py.
 
-use crate::events::*;
-use crate::flat::*;
-use crate::gen::*;
-use crate::mon::*;
-use crate::probe::*;
+use ppv::events::*;
+use ppv::flat::*;
+use ppv::gen::*;
+use ppv::mon::*;
+use ppv::probe::*;
 use piecewise_polynomial::*;
 use serde_json::json;
 
